@@ -278,15 +278,28 @@ func (c *Classifier) Normalize(in []byte) []byte {
 	case 0:
 		return nil
 	case 1:
-		buf.WriteString(dict.getWord(doc.Tokens[0].ID))
+		first := dict.getWord(doc.Tokens[0].ID)
+		if first != eol {
+			for l := 1; l < doc.Tokens[0].Line; l++ {
+				buf.WriteString(eol)
+			}
+		}
+		buf.WriteString(first)
 		return buf.Bytes()
 	}
 
 	prevLine := 1
 	// The first token needs no separator. If the first line holds no words the
 	// first token is an EOL token; it is accounted for by the line change of the
-	// token that follows it, so it must not be written out itself.
+	// token that follows it, so it must not be written out itself. A first word
+	// can also sit on a later line without an EOL token in front of it (the
+	// lines before it held nothing but a notice that was wrapped with a hyphen);
+	// it is moved down to its line like every other token.
 	if first := dict.getWord(doc.Tokens[0].ID); first != eol {
+		for l := prevLine; l < doc.Tokens[0].Line; l++ {
+			buf.WriteString(eol)
+		}
+		prevLine = doc.Tokens[0].Line
 		buf.WriteString(first)
 	}
 	for _, t := range doc.Tokens[1:] {
